@@ -82,6 +82,24 @@ func (c *CEnv) cty(t *CType) *Ty {
 		return &Ty{K: TSlice, Elem: c.cty(t.Elem)}
 	case "ptr":
 		return &Ty{K: TPtr, Elem: c.cty(t.Elem)}
+	case "func":
+		basic := func(ct *CType) types.Type {
+			switch ct.Kind {
+			case "int":
+				return types.Typ[types.Int]
+			case "bool":
+				return types.Typ[types.Bool]
+			case "float64", "real":
+				return types.Typ[types.Float64]
+			}
+			panic("contract: unsupported type in func type: " + ct.String())
+		}
+		var ps []*types.Var
+		for _, p := range t.Params {
+			ps = append(ps, types.NewVar(0, nil, "", basic(p)))
+		}
+		sig := types.NewSignatureType(nil, nil, nil, types.NewTuple(ps...), types.NewTuple(types.NewVar(0, nil, "", basic(t.Ret))), false)
+		return &Ty{K: TOpaque, Go: sig, Name: "func"}
 	case "named":
 		if gt, ok := x.eng.ghostTypes[t.Name]; ok {
 			return gt
@@ -715,10 +733,27 @@ func (c *CEnv) evalCall(e *CExpr) Val {
 		}
 	}
 	// pure function-typed parameter: f(x)
-	if c.lookup != nil {
-		if fv, ok := c.lookup(e.Name); ok && fv.Ty.K == TOpaque {
-			if sig, ok := fv.Ty.Go.Underlying().(*types.Signature); ok {
-				return x.applyFuncValue(fv, sig, args())
+	{
+		fv, ok := c.bound[e.Name]
+		if !ok && c.lookup != nil {
+			fv, ok = c.lookup(e.Name)
+		}
+		if ok && fv.Ty.K == TOpaque && fv.Ty.Go != nil {
+			if sig, isSig := fv.Ty.Go.Underlying().(*types.Signature); isSig {
+				// a local closure with a deterministic contract denotes its contract function
+				if id, isID := intVal(fv.T); isID {
+					if cl := x.closures[id]; cl != nil {
+						if fc, have := x.eng.contracts[cl.name]; have && fc.Pure {
+							return x.detCall(cl.name, sig, nil, args(), 0)
+						}
+					}
+				}
+				vs := args()
+				for i := range vs {
+					pty := x.w.goTy(sig.Params().At(i).Type(), x.model.BV)
+					vs[i] = Val{T: x.coerceTo(vs[i], pty), Ty: pty}
+				}
+				return x.applyFuncValue(fv, sig, vs)
 			}
 		}
 	}
